@@ -26,7 +26,7 @@ def run(ctx):
     res = vlib.run_tlc(ctx, d, "MCReplica", "design_replica.cfg", timeout=1200)
     vlib.tlc_must_pass(ctx, res, "design run Replica")
     ctx.coverage.update(states=res.distinct, transitions=res.generated)
-    seeds = [ctx.seed * 1000 + 500 + i for i in range(8 if q else 64)]
+    seeds = [ctx.seed * 1000 + 500 + i for i in range(8 if q else 160)]
     lines, sums = cc.run_scenarios(ctx, seeds, 150 if q else 400, halt_ok=True)
     l2, s2 = cc.run_scenarios(ctx, [x + 300 for x in seeds] + [x + 350 for x in seeds], 150 if q else 400, extra=cc.VRF, halt_ok=True)
     l3, s3 = cc.run_scenarios(ctx, [x + 600 for x in seeds[:max(2, len(seeds) // 3)]], 150 if q else 400, extra=["-mintransact", "3"], halt_ok=True)
